@@ -32,7 +32,9 @@ def obj3d(d):
     from perception_eval.common.shape import Shape, ShapeType
     return DynamicObject(
         unix_time=d.get("t", 0), frame_id=FrameID.from_value(d.get("frame", "base_link")),
-        position=(float(d["x"]), float(d["y"]), float(d.get("z", 0.0))), orientation=quat_yaw(d.get("yaw", 0.0)),
+        # array_position: the position as an ndarray, the way the library's own transforms (convert_objects_to_global, interpolation) hand positions on
+        position=(__import__("numpy").array([float(d["x"]), float(d["y"]), float(d.get("z", 0.0))]) if d.get("array_position") else (float(d["x"]), float(d["y"]), float(d.get("z", 0.0)))),
+        orientation=quat_yaw(d.get("yaw", 0.0)),
         shape=Shape(ShapeType.BOUNDING_BOX, tuple(float(v) for v in d.get("size", (1.0, 2.0, 1.0)))),
         velocity=tuple(d.get("velocity", (0.0, 0.0, 0.0))), semantic_score=float(d.get("score", 0.9)),
         semantic_label=label(d["label"], d.get("attributes", ()), raw_name=d.get("raw_name")), pointcloud_num=d.get("pts"), uuid=d.get("uuid"))
